@@ -7,6 +7,7 @@
    and on the chains [that; DenyAll] and [that; AllowAll]. *)
 From Verif Require Import Base.Prelude.
 From Verif Require Import ACL.Model.
+From Verif Require Import ACL.Identity.
 
 Record tok := Tok {
   t_idx : list N;                      (* pool indexes of the token's policies, in order *)
@@ -65,7 +66,41 @@ Fixpoint run_toks (names : list string) (pool : list pentry) (c : caches) (ts : 
   end.
 
 Definition check (c : case) : bool := run_toks (c_names c) (c_pool c) caches_empty (c_toks c).
-Definition mismatches (cs : list case) : list N := failing check cs.
+
+(* Resolver stream: a world (policies with datacenter scopes, roles, the synthetic policies the
+   implementation generated for the identities in use), tokens, and the sequence in which the
+   harness resolved them through ONE consul.ACLResolver (default policy "deny").  Observed per
+   step: every method on every name on the authorizer ResolveToken returned, or an error. *)
+Record rstep := RStep {
+  rs_tok : N;                          (* index into rc_toks *)
+  rs_expect : option string }.
+
+Record rcase := RCase {
+  rc_names : list string;
+  rc_world : world;
+  rc_toks : list wtoken;
+  rc_steps : list rstep }.
+
+Definition observe_chain (names : list string) (a : authorizer) : list N :=
+  map (fun m => dcode (chain_decide a deny_all m)) (methods names).
+
+Definition dummy_token : wtoken := WToken [] [] [] [].
+
+Fixpoint run_steps (names : list string) (w : world) (toks : list wtoken) (c : caches) (ss : list rstep) : bool :=
+  match ss with
+  | [] => true
+  | s :: ss' =>
+      let '(c', oa) := token_compile w c (nth (N.to_nat (rs_tok s)) toks dummy_token) in
+      obs_eqb (option_map (observe_chain names) oa) (rs_expect s) && run_steps names w toks c' ss'
+  end.
+
+Definition rcheck (r : rcase) : bool :=
+  run_steps (rc_names r) (rc_world r) (rc_toks r) caches_empty (rc_steps r).
+
+Inductive anycase := PlainCase (c : case) | ResolverCase (r : rcase).
+Definition check_any (a : anycase) : bool :=
+  match a with PlainCase c => check c | ResolverCase r => rcheck r end.
+Definition mismatches (cs : list anycase) : list N := failing check_any cs.
 
 (* ---- finite-domain tables regenerated from the Go code on every run (coq/gen/tab_C08.v) ---- *)
 
